@@ -146,13 +146,24 @@ func (x *Exec) tryMerge(st *State, c *Term, j *ssa.BasicBlock) ([]*State, *State
 			all = append(all, x.explore(ch, stopJ)...)
 		}
 	}
+	out := x.mergeGroup(st, all, base)
+	if len(out) == 1 {
+		return nil, out[0]
+	}
+	return out, nil
+}
+
+// mergeGroup merges the states in all (children of st that reached the same program point)
+// n-way as far as their shapes allow; base is len(st.pc).
+func (x *Exec) mergeGroup(st *State, all []*State, base int) []*State {
 	if len(all) == 0 {
-		return nil, nil
+		return nil
 	}
 	if len(all) == 1 {
 		all[0].replay = nil
-		return nil, all[0]
+		return all
 	}
+	fn := x.top(st).fn
 	type group struct {
 		s    *State
 		cond *Term
@@ -188,10 +199,7 @@ func (x *Exec) tryMerge(st *State, c *Term, j *ssa.BasicBlock) ([]*State, *State
 		g.s.replay = nil
 		out = append(out, g.s)
 	}
-	if len(out) == 1 {
-		return nil, out[0]
-	}
-	return out, nil
+	return out
 }
 
 func sameSlice(a, b []Value) bool {
